@@ -177,12 +177,104 @@ class CFG:
         return b
 
     def _block(self, stmts, preds: List[Node]) -> List[Node]:
-        for st in stmts:
-            if not preds:
-                # unreachable code after return/raise/continue: still build (detached) for completeness
-                pass
+        i = 0
+        while i < len(stmts):
+            st = stmts[i]
+            nxt = stmts[i + 1] if i + 1 < len(stmts) else None
+            if st.__class__.__name__ == "InlineBlock" and isinstance(nxt, ast.If):
+                # jump threading: an exit of the helper that binds the tested name to a constant goes straight to the arm
+                # that constant selects (`return None` ... `if result is not None:`; `return True, x` ... `if matched:`)
+                outs = self._stmt(st, preds)
+                preds = self._threaded_if(nxt, outs)
+                i += 2
+                continue
             preds = self._stmt(st, preds)
+            i += 1
         return preds
+
+    @staticmethod
+    def _const_test(test, var: str, value) -> Optional[bool]:
+        """truth of `test` when `var` holds the constant `value` (None when the test is not about var alone)"""
+        if isinstance(test, ast.UnaryOp) and isinstance(test.op, ast.Not):
+            r = CFG._const_test(test.operand, var, value)
+            return None if r is None else (not r)
+        if isinstance(test, ast.Name) and test.id == var:
+            return bool(value)
+        if isinstance(test, ast.Compare) and len(test.ops) == 1 and isinstance(test.left, ast.Name) and test.left.id == var \
+                and isinstance(test.comparators[0], ast.Constant):
+            c = test.comparators[0].value
+            op = test.ops[0]
+            if isinstance(op, ast.Is):
+                return value is c
+            if isinstance(op, ast.IsNot):
+                return value is not c
+            if isinstance(op, ast.Eq):
+                return value == c
+            if isinstance(op, ast.NotEq):
+                return value != c
+        return None
+
+    @staticmethod
+    def _sentinel_test(test, var: str, bound_to: str) -> Optional[bool]:
+        """truth of `var is [not] SENTINEL` when var was just bound to the name `bound_to`: identical when that is the
+        sentinel itself, different when it is a local value and the sentinel is a module-level marker (_NAME / NAME)"""
+        neg = False
+        while isinstance(test, ast.UnaryOp) and isinstance(test.op, ast.Not):
+            test, neg = test.operand, not neg
+        if isinstance(test, ast.Compare) and len(test.ops) == 1 and isinstance(test.ops[0], (ast.Is, ast.IsNot)) \
+                and isinstance(test.left, ast.Name) and test.left.id == var and isinstance(test.comparators[0], ast.Name):
+            s_ = test.comparators[0].id
+            if not (s_.startswith("_") or s_.isupper()):
+                return None
+            same = bound_to == s_
+            if not same and (bound_to.startswith("_") and bound_to.isupper()):
+                return None
+            r = same if isinstance(test.ops[0], ast.Is) else not same
+            return (not r) if neg else r
+        return None
+
+    def _threaded_if(self, st: ast.If, outs: List[Node]) -> List[Node]:
+        names = {x.id for x in ast.walk(st.test) if isinstance(x, ast.Name)}
+        known: List[Tuple[Node, bool]] = []
+        unknown: List[Node] = []
+        for o in outs:
+            verdict = None
+            cand = [x for x in names if not (x.startswith("_") and x.isupper()) and not x.isupper()]
+            if len(cand) == 1:
+                var = cand[0]
+                cur, steps = o, 0
+                while cur is not None and steps < 4:
+                    a = cur.ast
+                    if cur.kind == "stmt" and isinstance(a, ast.Assign) and len(a.targets) == 1 \
+                            and isinstance(a.targets[0], ast.Name) and a.targets[0].id == var:
+                        if isinstance(a.value, ast.Constant):
+                            verdict = self._const_test(st.test, var, a.value.value)
+                        elif isinstance(a.value, ast.Name):
+                            verdict = self._sentinel_test(st.test, var, a.value.id)
+                        break
+                    if cur.kind != "stmt" or not isinstance(a, ast.Assign):
+                        break
+                    ps = [p for p, k in cur.pred if k == N]
+                    cur = ps[0] if len(ps) == 1 else None
+                    steps += 1
+            if verdict is None:
+                unknown.append(o)
+            else:
+                known.append((o, verdict))
+        if not known:
+            return self._stmt(st, outs)
+        t = self._new("test", st.test, st)
+        self.stmt_nodes[id(st)] = t
+        self._link(unknown, t)
+        if may_raise(st.test):
+            self._exc(t)
+        bt = self._branch(t, st.test, True)
+        bf = self._branch(t, st.test, False)
+        for o, v in known:
+            self._edge(o, bt if v else bf, N)
+        out_t = self._block(st.body, [bt])
+        out_f = self._block(st.orelse, [bf]) if st.orelse else [bf]
+        return out_t + out_f
 
     def _stmt(self, st, preds: List[Node]) -> List[Node]:
         if st.__class__.__name__ == "InlineBlock":
